@@ -71,6 +71,14 @@ try:
             return xs
 
 
+        def t_prealloc(x0: float, n: int) -> typing.List[float]:
+            xs = [x0] + [None] * (n + 1)
+            for i in range(n + 1):
+                xs[i + 1] = xs[i] * 2
+            xs.pop(-1)
+            return xs
+
+
         def t_inv_a(x0: float, c: float, n: int) -> typing.List[float]:
             out = []
             cur = x0
@@ -122,6 +130,9 @@ try:
     b = analyse(repo, repo.find_function("t_indexed"), cfg)[0].value
     assert a.kind == b.kind == "series" and a.popped == b.popped == 1 and key_equiv(val_key(a.init[0]), val_key(b.init[0])) \
         and key_equiv(val_key(a.per_iter[0]), val_key(b.per_iter[0])), (a, b)
+    c3 = analyse(repo, repo.find_function("t_prealloc"), cfg)[0].value
+    assert c3.kind == "series" and c3.popped == 1 and key_equiv(val_key(c3.init[0]), val_key(b.init[0])) \
+        and key_equiv(val_key(c3.per_iter[0]), val_key(b.per_iter[0])), c3
     ia = [x for x in analyse(repo, repo.find_function("t_inv_a"), cfg) if x.kind == "return"]
     ib = [x for x in analyse(repo, repo.find_function("t_inv_b"), cfg) if x.kind == "return"]
     assert len(ia) == len(ib) == 1 and key_equiv(val_key(ia[0].value.per_iter[0]), val_key(ib[0].value.per_iter[0])), (ia, ib)
